@@ -186,13 +186,14 @@ PROPS = {
         "level_text": "Thousands of structured sets (complete sub-trees of depth 1-6 incl. pentagon-rooted ones, partial sibling groups, sub-trees with one leaf removed, sibling families under one grandparent, isolated "
                       "cells, whole disks; 1 to >1e5 cells; res 1-15) are each presented sorted, reversed, rotated and shuffled; the non-zero output of compactCells must equal the unique canonical compaction computed by an "
                       "independent bottom-up reference, uncompactCells of it must be exactly the input set, uncompactCellsSize = |S|, capacity |S|-1 -> E_MEMORY_BOUNDS without overrun, coarser target -> E_RES_MISMATCH. "
+                      "For sets too large to materialise (canonical sets of 1-5 coarse cells expanded to every finer resolution, up to 7^15 members) uncompactCellsSize is compared with closed-form 128-bit counts and a tiny capacity must be refused. "
                       "ASan+UBSan, exact-size buffers, assertions intercepted.",
         "level_note": "Trusted base: reference compaction (sorted grouping by parent using the documented child counts). Duplicated or mixed-resolution inputs are outside the statement (driven in C12 for safety only).",
         "technique": "runtime monitoring: reference-model comparison (canonical compaction is unique) across input orderings, under ASan/UBSan with exact-size buffers",
-        "evaluations": ["compact.calls", "uncompact.calls"],
+        "evaluations": ["compact.calls", "uncompact.calls", "deepsize.calls"],
         "rule": "a case is one generated set (from a 64-bit seed) run through 4 (quick) / 6 (thorough) orderings. Non-trivial = the canonical compaction is strictly smaller than the set (at least one complete sibling group); "
                 "distinct by seed.",
-        "require": {"sets": 1000, "sets.compactable": 500, "compact.cells_in": 5000000, "uncompact.short_capacity": 500, "uncompact.coarser_target": 300},
+        "require": {"sets": 1000, "sets.compactable": 500, "compact.cells_in": 5000000, "uncompact.short_capacity": 500, "uncompact.coarser_target": 300, "deepsize.calls": 3000, "deepsize.short_capacity": 1000},
         "assumptions": ["reference compaction is the canonical form described by the statement (no ancestor pairs, no complete sibling set)"],
     },
     "C07": {
